@@ -87,4 +87,80 @@ def uniqueSortMerge (le ne : α → α → Bool) (xs : List α) : List α :=
   keepFirsts ne (xs.mergeSort le)
 
 end Np
+
+/-! ## Arrays as objects: whose array is the result of `materialize`?
+
+The value-level model above takes an array to be its content.  Two arrays with the same content are still
+two objects: an in-place operation on one (`values *= 2`, `values += 1`, `values[i] = ...`) is seen through
+every *view* of it and through no *copy*.  `Origin` is what the extractor reads off the expression a
+`materialize` body returns (`Gen.Encodings.*MaterializeOrigin`): `numpy.full`, `numpy.array(<list>)`,
+`repeat`, `take`, indexing by an index array, arithmetic build a new array (`fresh`);
+`numpy.broadcast_to`, slicing, `view`, `reshape`, `numpy.asarray` of a stored array and the stored attribute
+itself are windows onto the stored array (`aliasStored`). -/
+
+/-- Where the array returned by a `materialize` body comes from. -/
+inductive Origin where
+  | fresh
+  | aliasStored
+  deriving DecidableEq, Repr
+
+/-- A heap of arrays; an address is a position (numpy never moves or frees an array that is referred to). -/
+structure Heap (α : Type) where
+  cells : List (List α)
+
+/-- What the caller of `materialize` holds: an array of its own, or a window onto the array at `a`
+through which it reads `g` of that array's *current* content (`broadcast_to`: the one cell repeated). -/
+inductive Ref (α : Type) where
+  | owned (a : Nat)
+  | view (a : Nat) (g : List α → List α)
+
+namespace Heap
+
+def read (h : Heap α) (a : Nat) : List α := (h.cells[a]?).getD []
+
+/-- a new array: the heap grows by one cell, its address is the old size -/
+def alloc (h : Heap α) (xs : List α) : Heap α × Nat := (⟨h.cells ++ [xs]⟩, h.cells.length)
+
+/-- any in-place operation on the array at `a`: its content is replaced, its identity stays -/
+def write (h : Heap α) (a : Nat) (xs : List α) : Heap α := ⟨h.cells.set a xs⟩
+
+/-- a sequence of in-place operations -/
+def writes (h : Heap α) : List (Nat × List α) → Heap α
+  | [] => h
+  | (a, xs) :: ws => (h.write a xs).writes ws
+
+def deref (h : Heap α) : Ref α → List α
+  | .owned a => h.read a
+  | .view a g => g (h.read a)
+
+end Heap
+
+/-- `materialize` as an operation on the heap: `decode` is what the body computes from the stored array at
+`stored` (the value-level translation), `o` says whether the result is a new array or a window. -/
+def materializeAt (o : Origin) (decode : List α → List α) (h : Heap α) (stored : Nat) : Heap α × Ref α :=
+  match o with
+  | .fresh => ((h.alloc (decode (h.read stored))).1, .owned (h.alloc (decode (h.read stored))).2)
+  | .aliasStored => (h, .view stored decode)
+
+/-- The session of the property's last clause on ONE column object: expand; apply `f` to the stored values
+*in place*; read the first expansion again; expand again.  Result: (first expansion as it reads at the
+end, second expansion). -/
+def session (o : Origin) (decode : List α → List α) (f : α → α) (h : Heap α) (stored : Nat) : List α × List α :=
+  match materializeAt o decode h stored with
+  | (h1, r1) =>
+    match materializeAt o decode (h1.write stored ((h1.read stored).map f)) stored with
+    | (h3, r2) => (h3.deref r1, h3.deref r2)
+
+/-- The other direction: the caller overwrites the expansion it was given with `xs` (when it is an array of its
+own; a window is read-only in numpy -- the write is refused and nothing changes), then expands again.
+Result: the stored array afterwards and the second expansion. -/
+def editSession (o : Origin) (decode : List α → List α) (xs : List α) (h : Heap α) (stored : Nat) : List α × List α :=
+  match materializeAt o decode h stored with
+  | (h1, r1) =>
+    let h2 := match r1 with
+      | .owned a => h1.write a xs
+      | .view _ _ => h1
+    match materializeAt o decode h2 stored with
+    | (h3, r2) => (h3.read stored, h3.deref r2)
+
 end Enc
